@@ -13,6 +13,7 @@ func init() { rules["C11"] = ruleC11 }
 
 // sharedOwners: struct types whose objects are reachable from more than one goroutine.
 var sharedOwners = map[string]bool{
+	"sequenceNumber": true,
 	"upf": true, "UP4": true, "bess": true, "PFCPNode": true, "PFCPConn": true, "PFCPIface": true,
 	"IPPool": true, "FTEIDGenerator": true, "downlinkDataNotifier": true, "P4rtClient": true,
 	"P4rtTranslator": true, "InMemoryStore": true, "ConfigHandler": true, "Service": true,
@@ -72,6 +73,45 @@ func ruleC11(w *World, r *Report) {
 	}
 	r.floor("R11.1 goroutine roots", len(roots), 15)
 	ctx := w.contextsOf(roots)
+	// goroutines started on behalf of an association (the BESS rule writers, the heartbeat monitor, …)
+	// count as association goroutines
+	assoc := map[string]bool{}
+	for k, v := range assocRoot {
+		assoc[k] = v
+	}
+	for changed := true; changed; {
+		changed = false
+		for _, rt := range roots {
+			if assoc[rt.name] {
+				continue
+			}
+			for _, e := range w.CG().In[rt.fn] {
+				if e.Kind != "go" {
+					continue
+				}
+				for _, parent := range ctx[e.Caller] {
+					if assoc[parent.name] && !assoc[rt.name] {
+						assoc[rt.name] = true
+						changed = true
+					}
+				}
+			}
+		}
+	}
+	// String methods are called by the fmt machinery (logging) wherever a value of the type is printed:
+	// no call edge shows it; they run in every association context
+	for _, f := range w.Funcs {
+		if f.Name() != "String" || f.Signature.Recv() == nil || len(ctx[f]) > 0 {
+			continue
+		}
+		if sharedOwners[rootTypeName(f.Signature.Recv().Type())] {
+			for _, rt := range roots {
+				if assocRoot[rt.name] {
+					ctx[f] = append(ctx[f], rt)
+				}
+			}
+		}
+	}
 	var mainRoot *goRoot
 	for _, rt := range roots {
 		if rt.why == "program entry" {
@@ -199,7 +239,7 @@ func ruleC11(w *World, r *Report) {
 				}
 				for _, ra := range ctx[a.fn] {
 					for _, rb := range ctx[b.fn] {
-						if !assocRoot[ra.name] && !assocRoot[rb.name] {
+						if !assoc[ra.name] && !assoc[rb.name] {
 							continue
 						}
 						conc := ra != rb || ra.multi
@@ -292,6 +332,9 @@ func ruleC11(w *World, r *Report) {
 
 	ruleC11Fanout(w, r)
 	ruleC11Rand(w, r, ctx)
+	// R11.6 shared objects are counted correctly: add and remove of a shared UP4 object (tunnel peer,
+	// application) use the same reference key — the sibling-agreement rules of C04 R04.3
+	r.withRule("R11.6", func() { ruleC04Shared(w, r) })
 }
 
 func shortRoot(s string) string {
